@@ -200,21 +200,21 @@ def run(text, solver, timeout_s, workdir, tag='q', per_query_ms=None, decimal=Fa
     with os.fdopen(fd, 'w') as f:
         f.write(text)
     if solver == 'z3':
-        cmd = [Z3]
+        cmd = [Z3, f'-T:{int(timeout_s) + 5}']      # hard limit inside the solver too: no orphan outlives a killed check
         if per_query_ms:
             cmd.append(f'-t:{per_query_ms}')
         if decimal:
             cmd += ['pp.decimal=true', 'pp.decimal_precision=30']
         cmd.append(path)
     elif solver == 'z3new':
-        cmd = [Z3NEW]
+        cmd = [Z3NEW, f'-T:{int(timeout_s) + 5}']
         if per_query_ms:
             cmd.append(f'-t:{per_query_ms}')
         if decimal:
             cmd += ['pp.decimal=true', 'pp.decimal_precision=30']
         cmd.append(path)
     elif solver == 'cvc5':
-        cmd = [CVC5, '--incremental']
+        cmd = [CVC5, '--incremental', f'--tlimit={(int(timeout_s) + 5) * 1000}']
         if per_query_ms:
             cmd.append(f'--tlimit-per={per_query_ms}')
         if 'get-value' in text:
